@@ -75,6 +75,21 @@ def _check(b, scale=1.0, off=0.0):
                     assert _close(got[i], e[i]), {"i": i, "got": float(got[i]), "expected": e[i]}
             guard("perpendicular-subrange", f4)
 
+            def f4s():
+                # the smallest ranges: the two end points alone, and one interior point between them
+                pad = np.array([[-5.0 * scale + off, 7.0 * scale + off]])
+                got = lf.perpendicular_distance_index(np.vstack([pad, a[None, :], bb[None, :], pad]), 1, 2)
+                assert len(got) == 2 and _close(got[0], 0.0) and _close(got[1], 0.0), {"range": "2 points", "got": [float(v) for v in got]}
+                for jj in range(min(len(P), 4)):
+                    arr = np.vstack([pad, a[None, :], P[jj][None, :], bb[None, :], pad])
+                    for name, got in (("perpendicular_distance_index", lf.perpendicular_distance_index(arr, 1, 3)),
+                                      ("perpendicular_distance", lf.perpendicular_distance(arr[1:4]))):
+                        e = [0.0, expp[jj], 0.0]
+                        assert len(got) == 3, {"fn": name, "len": len(got)}
+                        for i in range(3):
+                            assert _close(got[i], e[i]), {"fn": name, "range": "3 points", "p": b["pts"][jj], "i": i, "got": float(got[i]), "expected": e[i]}
+            guard("perpendicular-subrange", f4s)
+
         def f5():
             got = kr.distances(a, P)
             e = [math.sqrt(v) * scale for v in b["d2a"]]
